@@ -158,7 +158,9 @@ def _accepts(g, w):
     return len(list(g.parse_forest(w))) > 0
 
 
-_EXPECT = {(s, w): _accepts(load(spec), w) for s, spec in ((0, SPEC_A2), (1, SPEC_B2)) for w in WORDS2}
+# expected answers written down from the two languages (NOT computed with the code under test: a leak between
+# spec objects would contaminate an expectation computed in this very process)
+_EXPECT = {(0, "ab-cd"): True, (0, "ab.cd"): True, (0, "xxx"): True, (1, "ab-cd"): False, (1, "ab.cd"): True, (1, "xxx"): True}
 GA2, GB2 = load(SPEC_A2), load(SPEC_B2)
 
 
